@@ -36,6 +36,25 @@ var VerifDir = func() string {
 	return "/verif"
 }()
 
+// RepoDir is the tree of the code under test: /repo, unless VERIF_REPO points at a scratch worktree (used only to run
+// seeded changes in parallel without touching /repo; the registered checks never set it).
+var RepoDir = func() string {
+	if d := os.Getenv("VERIF_REPO"); d != "" {
+		return d
+	}
+	return "/repo"
+}()
+
+// goEnv is the environment of the go builds the checks make themselves. VERIF_MODFILE (set by ./check together with
+// VERIF_REPO) names an alternative go.mod of the verif module whose replace directive points at RepoDir.
+func goEnv(verifModule bool) []string {
+	flags := "GOFLAGS=-mod=mod"
+	if mf := os.Getenv("VERIF_MODFILE"); mf != "" && verifModule {
+		flags += " -modfile=" + mf
+	}
+	return append(os.Environ(), flags, "GOPROXY=off", "GOSUMDB=off", "GOTOOLCHAIN=local")
+}
+
 // Config describes one property check.
 type Config struct {
 	Prop        string   // property id, e.g. C01
@@ -981,8 +1000,8 @@ func BuildCLI(work, name string, tags string, race bool) (string, error) {
 	}
 	args = append(args, "./cmd/desync")
 	cmd := exec.Command("go", args...)
-	cmd.Dir = "/repo"
-	cmd.Env = append(os.Environ(), "GOFLAGS=-mod=mod", "GOPROXY=off", "GOSUMDB=off", "GOTOOLCHAIN=local")
+	cmd.Dir = RepoDir
+	cmd.Env = goEnv(false)
 	b, err := cmd.CombinedOutput()
 	if err != nil {
 		return "", fmt.Errorf("building desync CLI: %v\n%s", err, b)
@@ -1000,7 +1019,7 @@ func BuildHelper(work, name, pkg string, tags string) (string, error) {
 	args = append(args, pkg)
 	cmd := exec.Command("go", args...)
 	cmd.Dir = VerifDir
-	cmd.Env = append(os.Environ(), "GOFLAGS=-mod=mod", "GOPROXY=off", "GOSUMDB=off", "GOTOOLCHAIN=local")
+	cmd.Env = goEnv(true)
 	b, err := cmd.CombinedOutput()
 	if err != nil {
 		return "", fmt.Errorf("building %s: %v\n%s", pkg, err, b)
